@@ -98,11 +98,11 @@ func ParseIn(s, context string) ([]DomNode, error) {
 	walk = func(n *html.Node) {
 		d := DomNode{Type: n.Type, Data: n.Data, Namespace: n.Namespace}
 		if n.Type == html.ElementNode {
-			d.Name = strings.ToLower(n.Data)
+			d.Name = asciiLower(n.Data)
 			for _, a := range n.Attr {
-				k := strings.ToLower(a.Key)
+				k := asciiLower(a.Key)
 				if a.Namespace != "" {
-					k = strings.ToLower(a.Namespace) + ":" + k
+					k = asciiLower(a.Namespace) + ":" + k
 				}
 				d.Attrs = append(d.Attrs, html.Attribute{Key: k, Val: a.Val})
 			}
